@@ -104,6 +104,24 @@ Example table_copy_nonvacuous :
   exists t, tinv Z Z zt_hash t /\ t_iter Z Z t = ((3%Z, 2%Z) :: (7%Z, 1%Z) :: nil).
 Proof. exact HashTable.tinv_nonvacuous. Qed.
 
+(* both levels together for Tables keyed by Int: copy(t) is eq to t in both directions, hashes the
+   same and has the same length — for every slot-array state with the invariant, every hash function *)
+Theorem int_table_copy_is_eq_and_hashes_equal : forall (hash : Z -> N) (t : table Z value),
+  tinv Z value hash t -> entries_wf t ->
+  exists t', t_assign_from Z value Z.eqb hash table_swap table_primes table_load_num table_load_den t = Some t' /\
+    v_cmp table_cmp_by_lookup (VMap KTable (emb t')) (VMap KTable (emb t)) = Some 0%Z /\
+    v_cmp table_cmp_by_lookup (VMap KTable (emb t)) (VMap KTable (emb t')) = Some 0%Z /\
+    v_hash hash_m hash_r hash_seed float_hash_normalises_zero (VMap KTable (emb t')) =
+    v_hash hash_m hash_r hash_seed float_hash_normalises_zero (VMap KTable (emb t)) /\
+    length (emb t') = length (emb t).
+Proof. exact (HashTable.int_table_copy_eq_hash hash_m hash_r hash_seed). Qed.
+Print Assumptions int_table_copy_is_eq_and_hashes_equal.
+
+Example int_table_copy_nonvacuous :
+  exists t : table Z value, tinv Z value zt_hash t /\ entries_wf t /\
+    emb t = ((VInt 3, VSeq KList (VFloat 0 :: nil)) :: (VInt 7, VStr (72 :: 105 :: nil)%N) :: nil).
+Proof. exact HashTable.int_table_nonvacuous. Qed.
+
 (* the copy of a reachable table can list its bindings in another order (why the pinned Table_Cmp failed) *)
 Theorem copy_changes_slot_order :
   t_iter Z Z witness_table = ((3%Z, 2%Z) :: (7%Z, 1%Z) :: nil) /\
@@ -125,3 +143,10 @@ Theorem table_walk_refuted :
                  v_cmp false (VMap KTable mp) (VMap KTable mp') <> Some 0%Z.
 Proof. exact HashProofs.table_walk_refuted. Qed.
 Print Assumptions table_walk_refuted.
+
+(* the code shapes the model encodes are still the ones in the source (tools/genx_hash.py): loop,
+   tail switch and finish of hash_data; Int_Hash; Float_Cmp; the five XOR folds *)
+Theorem source_shapes_as_modelled :
+  hash_data_shape_ok && int_hash_shape_ok && float_cmp_shape_ok && xor_fold_shape_ok = true.
+Proof. exact (eq_refl true). Qed.
+Print Assumptions source_shapes_as_modelled.
